@@ -126,6 +126,14 @@ func c12expect(sig int, args []c12arg, block bool) (recv []string, reject bool) 
 	return recv, false
 }
 
+type c12perr struct{}
+
+func (e *c12perr) Error() string { return "perr" }
+
+type c12merr map[string]int
+
+func (e c12merr) Error() string { return "merr" }
+
 type c12shower struct{ Name string }
 
 func (s c12shower) Show(v interface{}) string {
@@ -362,6 +370,24 @@ func init() {
 				e.Distinct(t[0])
 				if o.Class != "OK" || o.Out != t[1] {
 					e.Violate("c12-bind", fmt.Sprintf("%s: rendered %q (%s %s), want %q; the helper saw (has block, tail) = %v", t[0], o.Out, o.Class, firstLine(o.Msg), t[1], got), map[string]interface{}{"tmpl": t[0], "observed": o})
+				}
+			}
+		}
+		// a function declared to return a CONCRETE error type (func() (string, *MyErr)): a nil result is success,
+		// a non-nil one fails the render; a non-pointer error value fails it whatever its value
+		{
+			extra := map[string]interface{}{
+				"okp": func() (string, *c12perr) { return "ok", nil }, "badp": func() (string, *c12perr) { return "no", &c12perr{} },
+				"onlyp": func() *c12perr { return nil }, "okm": func(s string) (string, c12merr) { return s, nil }, "badm": func() (string, c12merr) { return "no", c12merr{} },
+			}
+			for _, t := range [][2]string{{"<%= okp() %>", "ok"}, {"<%= badp() %>", "ERR"}, {"[<%= onlyp() %>]", "[]"}, {"<%= okm(\"m\") %>|<%= okp() + \"!\" %>", "m|ok!"}, {"<%= badm() %>", "ERR"},
+				{"<%= if (okp() == \"ok\") { %>y<% } %>", "y"}, {"<%= for (i) in [1, 2] { %><%= okp() %><% } %>", "okok"}} {
+				o := runRenderExtra(RCase{Tmpl: t[0]}, extra)
+				e.rep.Evaluations++
+				e.Count("concrete-error-result-types")
+				e.Distinct(t[0])
+				if (t[1] == "ERR") != (o.Class == "ERR") || (t[1] != "ERR" && o.Out != t[1]) {
+					e.Violate("c12-result", fmt.Sprintf("%s: got %s %q (%s), want %q", t[0], o.Class, o.Out, firstLine(o.Msg), t[1]), map[string]interface{}{"tmpl": t[0], "observed": o})
 				}
 			}
 		}
